@@ -265,15 +265,15 @@ impl Servers {
         let rt = tokio::runtime::Builder::new_multi_thread().worker_threads(4).max_blocking_threads(64).enable_all().build().unwrap();
         Servers { rt, map: HashMap::new() }
     }
-    fn addr(&mut self, srv: &str, kind: &str, comp: u8, chunk: usize, depth: usize) -> Option<SocketAddr> {
-        let key = format!("{srv}|{kind}|{comp}|{chunk}|{depth}");
+    fn addr(&mut self, srv: &str, kind: &str, comp: u8, chunk: usize, depth: usize, level: i32) -> Option<SocketAddr> {
+        let key = format!("{srv}|{kind}|{comp}|{chunk}|{depth}|{level}");
         if let Some(a) = self.map.get(&key) {
             return Some(*a);
         }
         let opts = StreamOpts {
             chunk_bytes: chunk,
             compression: if comp == 1 { Compression::Zstd } else { Compression::None },
-            zstd_level: 3,
+            zstd_level: level,
             session_depth: depth,
         };
         let router = make_router(kind, opts)?;
@@ -445,17 +445,20 @@ struct Params {
     variant: String,
     evs: Vec<Ev>,
     end: End,
+    /// zstd level of the server configuration (only meaningful with comp = 1)
+    level: i32,
 }
 
 impl Params {
     fn aux(&self) -> String {
         format!(
-            "L{}.S{}.P{}.I{}.F{}.V{}",
+            "L{}.S{}.P{}.I{}.F{}.Z{}.V{}",
             self.len,
             self.seed,
             self.piece,
             self.interrupt,
             if self.fail_at == NONE { "-".to_string() } else { self.fail_at.to_string() },
+            self.level,
             if self.variant.is_empty() { "-" } else { &self.variant }
         )
     }
@@ -468,6 +471,7 @@ impl Params {
                 "P" => self.piece = v.parse().ok()?,
                 "I" => self.interrupt = v.parse().ok()?,
                 "F" => self.fail_at = if v == "-" { NONE } else { v.parse().ok()? },
+                "Z" => self.level = v.parse().ok()?,
                 "V" => self.variant = if v == "-" { String::new() } else { v.to_string() },
                 _ => return None,
             }
@@ -703,7 +707,7 @@ fn do_cancel(conn: &mut Conn, sv: &Servers, stream_id: u64, notify: bool) -> Res
 
 /// Pull a stream to its terminal response (recording run for zstd cases).
 fn record_stream(sv: &mut Servers, p: &Params, resource: &str) -> Result<(Vec<Vec<u8>>, bool), String> {
-    let addr = sv.addr(&p.srv, &p.kind, p.comp, p.chunk, p.depth).ok_or("no server")?;
+    let addr = sv.addr(&p.srv, &p.kind, p.comp, p.chunk, p.depth, p.level).ok_or("no server")?;
     let mut conn = Conn::connect(sv, &p.srv, addr)?;
     let open = do_open(&mut conn, sv, resource)?;
     let mut chunks = Vec::new();
@@ -816,7 +820,7 @@ fn exec_raw(sv: &mut Servers, out: &mut Out, idx: &str, p: &Params, script: &str
         idx, p.srv, p.kind, p.comp, p.chunk, p.depth, p.speed, stream_token, evs_token, p.end.tok(), script, p.aux()
     );
     out.begin(&op);
-    let addr = sv.addr(&p.srv, &p.kind, p.comp, p.chunk, p.depth)?;
+    let addr = sv.addr(&p.srv, &p.kind, p.comp, p.chunk, p.depth, p.level)?;
     let mut obs: Vec<String> = vec![idx.to_string()];
     let mut pulls: Vec<Pulled> = Vec::new();
     let mut n_tokens = 0usize;
@@ -1000,7 +1004,7 @@ fn exec_duo(sv: &mut Servers, out: &mut Out, idx: &str, pa: &Params, pb: &Params
         idx, pa.srv, pa.kind, pa.chunk, pa.depth, ta, ba.evs_tok, pa.end.tok(), tb, bb.evs_tok, pb.end.tok(), script, pa.aux(), pb.aux()
     );
     out.begin(&op);
-    let addr = sv.addr(&pa.srv, &pa.kind, 0, pa.chunk, pa.depth)?;
+    let addr = sv.addr(&pa.srv, &pa.kind, 0, pa.chunk, pa.depth, 3)?;
     let mut obs: Vec<String> = vec![idx.to_string()];
     let mut steps = 0usize;
     match Conn::connect(sv, &pa.srv, addr) {
@@ -1084,7 +1088,7 @@ fn params_from_duo(w: &[&str]) -> Option<(Params, Params, String)> {
         let mut p = Params {
             srv: w[2].into(), kind: w[3].into(), comp: 0, chunk: w[4].parse().ok()?, depth: w[5].parse().ok()?,
             speed: 'n', len: 0, seed: 0, piece: 8192, interrupt: 0, fail_at: NONE, variant: String::new(),
-            evs: vec![], end: End::parse(end)?,
+            evs: vec![], end: End::parse(end)?, level: 3,
         };
         p.parse_aux(aux)?;
         if p.kind.starts_with("writer:") { p.evs = parse_evs(evs)?; }
@@ -1120,7 +1124,7 @@ fn start_stall(sv: &mut Servers, p: &Params, client: &str) -> Option<StallJob> {
     let (ms, count) = parse_stall(&p.variant)?;
     let built = build(p)?;
     let resource = register(built.spec.clone());
-    let addr = sv.addr(&p.srv, &p.kind, p.comp, p.chunk, p.depth)?;
+    let addr = sv.addr(&p.srv, &p.kind, p.comp, p.chunk, p.depth, p.level)?;
     let rt = sv.rt.handle().clone();
     let is_ws = client == "wsc";
     let res = resource.clone();
@@ -1223,7 +1227,7 @@ fn pat(a: usize, b: usize, n: usize) -> Vec<u8> {
 fn exec_conc(sv: &mut Servers, out: &mut Out, idx: &str, srv: &str, chunk: usize, depth: usize, n: usize, rounds: usize, l: usize) -> Option<RawResult> {
     let op = format!("conc {idx} {srv} {chunk} {depth} {n} {rounds} {l}");
     out.begin(&op);
-    let addr = sv.addr(srv, "reader", 0, chunk, depth)?;
+    let addr = sv.addr(srv, "reader", 0, chunk, depth, 3)?;
     let sv: &Servers = sv;
     let barrier = std::sync::Barrier::new(n);
     // per client: per round (stream id, pulled bytes, lasts, error)
@@ -1337,7 +1341,7 @@ fn exec_cnext(sv: &mut Servers, out: &mut Out, idx: &str, p: &Params, k: usize) 
     let known = !stream_token.starts_with("z:");
     let op = format!("cnext {} {} {} {} {} {} {} {}", idx, p.srv, p.chunk, p.depth, k, stream_token, built.evs_tok, p.aux());
     out.begin(&op);
-    let addr = sv.addr(&p.srv, &p.kind, 0, p.chunk, p.depth)?;
+    let addr = sv.addr(&p.srv, &p.kind, 0, p.chunk, p.depth, 3)?;
     let sv: &Servers = sv;
     let mut failures: Vec<(String, String)> = Vec::new();
     let mut toks: Vec<String> = Vec::new();
@@ -1422,7 +1426,7 @@ fn start_paused(sv: &mut Servers, p: &Params) -> Option<StallJob> {
     let built = build(p)?;
     built.spec.pause?;
     let resource = register(built.spec.clone());
-    let addr = sv.addr(&p.srv, &p.kind, p.comp, p.chunk, p.depth)?;
+    let addr = sv.addr(&p.srv, &p.kind, p.comp, p.chunk, p.depth, p.level)?;
     let res = resource.clone();
     let handle = std::thread::spawn(move || match repe::Client::connect(addr) {
         Err(e) => HlOut::Err(format!("connect:{e}")),
@@ -1462,7 +1466,7 @@ fn exec_hl(sv: &mut Servers, out: &mut Out, idx: &str, p: &Params, client: &str,
         idx, p.srv, client, puller, p.kind, p.comp, p.chunk, p.depth, stream_token, built.evs_tok, p.end.tok(), p.aux()
     );
     out.begin(&op);
-    let addr = sv.addr(&p.srv, &p.kind, p.comp, p.chunk, p.depth)?;
+    let addr = sv.addr(&p.srv, &p.kind, p.comp, p.chunk, p.depth, p.level)?;
     let spec = built.spec.clone();
     let res = resource.clone();
     let pl = puller.to_string();
@@ -1594,7 +1598,7 @@ fn params_from_raw(w: &[&str]) -> Option<(Params, String)> {
     let mut p = Params {
         srv: w[2].into(), kind: w[3].into(), comp: w[4].parse().ok()?, chunk: w[5].parse().ok()?, depth: w[6].parse().ok()?,
         speed: w[7].chars().next()?, len: 0, seed: 0, piece: 8192, interrupt: 0, fail_at: NONE, variant: String::new(),
-        evs: vec![], end: End::parse(w[10])?,
+        evs: vec![], end: End::parse(w[10])?, level: 3,
     };
     p.parse_aux(w[12])?;
     if p.kind.starts_with("writer:") && p.comp == 0 { p.evs = parse_evs(w[9])?; }
@@ -1608,7 +1612,7 @@ fn params_from_hl(w: &[&str]) -> Option<(Params, String, String)> {
     let mut p = Params {
         srv: w[2].into(), kind: w[5].into(), comp: w[6].parse().ok()?, chunk: w[7].parse().ok()?, depth: w[8].parse().ok()?,
         speed: 'n', len: 0, seed: 0, piece: 8192, interrupt: 0, fail_at: NONE, variant: String::new(),
-        evs: vec![], end: End::parse(w[11])?,
+        evs: vec![], end: End::parse(w[11])?, level: 3,
     };
     p.parse_aux(w[12])?;
     if p.kind.starts_with("writer:") { p.evs = parse_evs(w[10])?; }
@@ -1723,6 +1727,9 @@ impl Runner {
         o.count(&format!("svs.kind.{}", p.kind));
         o.count(&format!("svs.srv.{}", p.srv));
         o.count(&format!("svs.comp.{}", p.comp));
+        if p.comp == 1 {
+            o.count(&format!("svs.zstd_level.{}", p.level));
+        }
         o.count(&format!("svs.chunk.{}", p.chunk));
         o.count(&format!("svs.depth.{}", p.depth));
         o.count(&format!("svs.end.{}", p.end.tok()));
@@ -1748,8 +1755,23 @@ fn random_evs(r: &mut Rng, n: usize, chunk: usize) -> Vec<Ev> {
     evs
 }
 
+/// zstd levels exercised whenever compression is on: fast (negative), 0 = zstd's default, low, high, max.
+const ZSTD_LEVELS: [i32; 7] = [-7, -1, 0, 1, 3, 19, 22];
+static LEVEL_ROT: AtomicU64 = AtomicU64::new(0);
+
 fn base(srv: &str, kind: &str, comp: u8, chunk: usize, depth: usize) -> Params {
-    Params { srv: srv.into(), kind: kind.into(), comp, chunk, depth, speed: 'n', len: 0, seed: 0, piece: 8192, interrupt: 0, fail_at: NONE, variant: String::new(), evs: vec![], end: End::Ok }
+    // the ultra levels allocate a 128 MiB window per stream: a few cases each per run, the rest cycles the cheap ones
+    let level = if comp == 1 {
+        let k = LEVEL_ROT.fetch_add(1, Ordering::Relaxed);
+        match k % 40 {
+            7 => 19,
+            23 if k % 200 == 23 => 22,
+            _ => ZSTD_LEVELS[(k % 5) as usize],
+        }
+    } else {
+        3
+    };
+    Params { srv: srv.into(), kind: kind.into(), comp, chunk, depth, speed: 'n', len: 0, seed: 0, piece: 8192, interrupt: 0, fail_at: NONE, variant: String::new(), evs: vec![], end: End::Ok, level }
 }
 
 /// Parameters that make `kind` emit (as close as possible to) `target` logical bytes.
